@@ -897,6 +897,55 @@ func TestStorms(t *testing.T) {
 			reader, reader,
 		}
 	})
+	// the heartbeat function is added to a DeviceDiagnosis server feature (which sets the heartbeat manager up and
+	// starts it) at the very moment another goroutine stops that entity's heartbeat or removes the entity
+	run("heartbeat-setup-vs-stop", func(e *env, stop *atomic.Bool) []func() {
+		const n = 150
+		type he struct {
+			ent  *spine.EntityLocal
+			feat api.FeatureLocalInterface
+		}
+		var hs []he
+		for i := 0; i < n; i++ {
+			ne := spine.NewEntityLocal(e.w.Local, model.EntityTypeTypeEV, spine.NewAddressEntityType([]uint{uint(20 + i)}), 100*time.Millisecond)
+			hs = append(hs, he{ne, ne.GetOrAddFeature(model.FeatureTypeTypeDeviceDiagnosis, model.RoleTypeServer)})
+			if i%2 == 0 {
+				e.w.Local.AddEntity(ne)
+			}
+		}
+		var arrived atomic.Int32
+		meet := func(i int) {
+			arrived.Add(1)
+			for spins := 0; arrived.Load() < int32(2*(i+1)) && spins < 50_000_000; spins++ {
+			}
+		}
+		return []func(){
+			func() {
+				for i := range hs {
+					meet(i)
+					hs[i].feat.AddFunctionType(model.FunctionTypeDeviceDiagnosisHeartbeatData, true, false)
+				}
+				// nothing keeps running after the storm (the other goroutine may have been through before the last start)
+				for i := range hs {
+					hs[i].ent.HeartbeatManager().StopHeartbeat()
+				}
+			},
+			func() {
+				for i := range hs {
+					meet(i)
+					if i%4 == 0 {
+						e.w.Local.RemoveEntity(hs[i].ent)
+					} else {
+						hs[i].ent.HeartbeatManager().StopHeartbeat()
+					}
+					_ = hs[i].ent.HeartbeatManager().IsHeartbeatRunning()
+				}
+				for i := range hs {
+					hs[i].ent.HeartbeatManager().StopHeartbeat()
+				}
+			},
+		}
+	})
 	// bind requests for one server feature on two connections at once (one wins), deletes, writes
 	run("binds-vs-binds", func(e *env, stop *atomic.Bool) []func() {
 		p0, p1 := e.w.Peers[0], e.w.Peers[1]
